@@ -5,6 +5,7 @@ import (
 	"go/ast"
 	"go/token"
 	"go/types"
+	"os"
 	"strconv"
 	"strings"
 )
@@ -686,7 +687,7 @@ func (e *Exec) builtin(name string, call *ast.CallExpr, c *Ctx, want int) []Term
 				return []Term{e.uninterp("appendstr", []Term{s, o}, s.T)}
 			}
 			e.assume(c.st, fmt.Sprintf("(and (>= %s 0) (>= %s 0))", e.seqLen(s), e.seqLen(o)))
-			if so := e.sliceOrig[s.S]; so != nil && !c.spec && so.baseText != e.assignLHS {
+			if so := e.sliceOrig[s.S]; so != nil && !c.spec && so.baseText != e.assignLHS && !e.aliasOfAssigned(so) {
 				e.safetyAssert(c, "append-aliasing", fmt.Sprintf("(or (= %s 0) (>= (+ %s %s) %s))", e.seqLen(o), so.lo, e.seqLen(s), e.seqLen(so.base)),
 					exprText(call.Args[0]), call)
 				r := e.seqConcat(s, o)
@@ -696,7 +697,7 @@ func (e *Exec) builtin(name string, call *ast.CallExpr, c *Ctx, want int) []Term
 			return []Term{e.seqConcat(s, o)}
 		}
 		so := e.sliceOrig[s.S]
-		if so != nil && !c.spec && so.baseText != e.assignLHS {
+		if so != nil && !c.spec && so.baseText != e.assignLHS && !e.aliasOfAssigned(so) {
 			e.safetyAssert(c, "append-aliasing", fmt.Sprintf("(>= (+ %s %s) %s)", so.lo, e.seqLen(s), e.seqLen(so.base)),
 				exprText(call.Args[0]), call)
 		}
@@ -787,6 +788,33 @@ func (e *Exec) builtin(name string, call *ast.CallExpr, c *Ctx, want int) []Term
 }
 
 // ---------------------------------------------------------------- inlining
+
+// aliasOfAssigned: the slice the sub-slice was cut from is the current value of the variable being assigned (directly or
+// through a type assertion): `x = append(y[:i], y[i+1:]...)` with y := x (or y := x.([]T)) is the delete idiom too.
+func (e *Exec) aliasOfAssigned(so *sliceOrigin) bool {
+	v := e.assignLHSVal
+	if os.Getenv("GOVC_DEBUG") != "" && so != nil {
+		fmt.Fprintf(os.Stderr, "DEBUG alias: base=%s lhsval=%s\n", so.base.S, v)
+	}
+	if v == "" || so == nil {
+		return false
+	}
+	base := so.base.S
+	for i := 0; i < 4; i++ {
+		if base == v || base == "(a_val "+v+")" {
+			return true
+		}
+		d := e.vc.DefOf(base)
+		if d == "" {
+			return false
+		}
+		if strings.Contains(d, "(unbox!") && strings.Contains(d, "(a_val "+v+")") {
+			return true // y := x.([]T)
+		}
+		base = d
+	}
+	return false
+}
 
 func topFrameOf(fr *Frame) *Frame {
 	for fr != nil && !fr.top {
